@@ -228,8 +228,11 @@ func emit(r *lib.Rng, class string, t int, b []byte, streams bool) {
 	bs := "b" + strconv.Itoa(c)
 	em.Line(runBR(t, b, bs), "skip", "br", ts, hx, bs)
 	em.Line(runTplBufiox(t, b, bs), "skip", "tplbufiox", ts, hx, bs)
-	// scripted sources: one benign (everything deliverable) and one arbitrary
-	for _, sc := range []lib.Script{benignScript(r, len(b)), lib.GenScript(r, len(b))} {
+	// scripted sources: one benign (everything deliverable), one arbitrary, one multi-byte chunked
+	// (final chunk possibly together with an error) and one whose error arrives on the decoder's
+	// last read (data + io.EOF completing the value)
+	for _, sc := range []lib.Script{benignScript(r, len(b)), lib.GenScript(r, len(b)),
+		chunkScript(r, len(b)), lastReadErrScript(r, t, b)} {
 		s := sc.String()
 		em.Count("script:" + scriptClass(sc))
 		res = runBR(t, b, s)
@@ -284,6 +287,59 @@ func scriptClass(s lib.Script) string {
 		c += "+zeros"
 	}
 	return c
+}
+
+// chunkScript: chunks of arbitrary size >= 1 covering the stream, no empty reads, an error (if any)
+// only on the last chunk together with its data (C04 SteadyChunks shape; for the plain reader the
+// verdict decides by replaying the decoder's requests).
+func chunkScript(r *lib.Rng, total int) lib.Script {
+	var s lib.Script
+	left := total
+	for left > 0 {
+		k := r.Range(1, left)
+		if r.Chance(1, 3) {
+			k = r.Pick(1, 2, 3, 4, 5, 8, 16, 64)
+		}
+		if k > left {
+			k = left
+		}
+		left -= k
+		s = append(s, lib.Resp{K: k, Err: -1})
+	}
+	if len(s) > 0 && r.Chance(2, 3) {
+		s[len(s)-1].Err = r.Pick(0, 0, 0, 2)
+	}
+	return s
+}
+
+// lastReadErrScript: every Read hands over exactly what is asked for; the Read that completes the
+// value returns its data together with an error. The number of Reads is measured on a dry run of
+// ReaderSkipDecoder over an error-free source.
+func lastReadErrScript(r *lib.Rng, t int, b []byte) lib.Script {
+	calls := 0
+	lib.Guard(func() string {
+		var dry lib.Script
+		for i := 0; i <= len(b)+1; i++ {
+			dry = append(dry, lib.Resp{K: 1 << 20, Err: -1})
+		}
+		src := lib.NewSource(b, dry)
+		d := thrift.NewReaderSkipDecoder(src)
+		if _, err := d.Next(thrift.TType(int8(t))); err == nil {
+			calls = src.Calls
+		}
+		d.Release()
+		return ""
+	})
+	var s lib.Script
+	for i := 0; i < calls; i++ {
+		s = append(s, lib.Resp{K: 1 << 20, Err: -1})
+	}
+	if calls > 0 {
+		s[calls-1].Err = r.Pick(0, 0, 3)
+	} else { // not a value (or nothing to read): plain chunks
+		return chunkScript(r, len(b))
+	}
+	return s
 }
 
 // benignScript: every byte deliverable whatever the room: 1-byte or huge chunks, short zero runs,
